@@ -374,6 +374,8 @@ def check_builtin(case):
                 history = None
             det.fit(X)
             Xp = K.used_buffer(det, X, history.endswith("frame")) if history and history.startswith("used_buffer") else X
+            if history and history.startswith("predicted_on"):
+                K.related_predict(det, X, history)
             y = det.predict(Xp)
             scores = det.transform_scores(Xp).to_numpy()
             y_ign = build(True).fit(X).predict(X)
